@@ -34,13 +34,20 @@ func (p *pg) genC12() (Config, Plan) {
 		}
 		c.SegSize = []int{4096, 65536, 1 << 20}[p.r.Intn(3)]
 		// the buffer hand-back of a two-read (> 64 KiB) GetLog is only interesting
-		// when another reader starts a read inside it: at least two readers, and in
-		// half of the runs no stickiness and mostly large entries
+		// when another reader starts a read AND gets through its first ReadAt inside
+		// it (two scheduling decisions in a row for that reader): at least two
+		// readers, and in half of the runs a sticky scheduler and mostly large entries
 		if c.Readers < 2 {
 			c.Readers = 2 + p.r.Intn(3)
 		}
 		if p.r.Intn(2) == 0 {
-			c.StickNum, c.StickDen = 0, 0
+			c.StickNum, c.StickDen = []int{3, 4, 9}[p.r.Intn(3)], []int{4, 5, 10}[0]
+			switch c.StickNum {
+			case 4:
+				c.StickDen = 5
+			case 9:
+				c.StickDen = 10
+			}
 			for i := range plan.Ops {
 				if plan.Ops[i].Kind == "append" {
 					for j := range plan.Ops[i].Sizes {
